@@ -90,9 +90,13 @@ pub fn generate(
             non_predicate_param_indexer
                 .indexed_type_params
                 .keys()
-                .chain(non_predicate_param_indexer.indexed_const_params.keys())
                 .map(|param_ident| -> syn::GenericParam { syn::parse_quote!(#param_ident) }),
         )
+        .chain(non_predicate_param_indexer.indexed_const_params.values().map(
+            |(_, syn::ConstParam { ident, ty, .. })| -> syn::GenericParam {
+                syn::parse_quote!(const #ident: #ty)
+            },
+        ))
         .collect();
     // Remove unused params end
 
